@@ -402,6 +402,8 @@ class ControlTheory(Theory):
                 return [(st, EncodedV(val.t))]
             if name == "replace":
                 return [(st, StrV(z3.Function("str_replace_us_dash", S, S)(val.t)))]
+            if name == "lower":
+                return [(st, StrV(z3.Function("str_lower", S, S)(val.t)))]
             if name == "upper":
                 return [(st, StrV(z3.Function("str_upper", S, S)(val.t)))]
             if name == "startswith":
